@@ -270,7 +270,7 @@ class Gen:
 
     def case_bufmisc(self):
         r = self.r
-        f = r.choice(['buffer/popn', 'buffer/clear', 'buffer/fill', 'buffer/new-filled', 'buffer/push-word', 'buffer/push-uint16',
+        f = r.choice(['buffer/push-uint64', 'buffer/push-float32', 'buffer/push-float64', 'buffer/popn', 'buffer/clear', 'buffer/fill', 'buffer/new-filled', 'buffer/push-word', 'buffer/push-uint16',
                       'buffer/push-uint32', 'buffer/bit', 'buffer/bit-set', 'buffer/bit-clear', 'buffer/bit-toggle',
                       'buffer/bit', 'buffer/bit-set', 'buffer/bit-clear', 'buffer/bit-toggle'])
         b = self.bufv()
@@ -287,6 +287,15 @@ class Gen:
             ws = [I(r.choice([0, 1, 255, 256, 65535, 65536, 2**31 - 1, 2**31, 2**32 - 1, 2**32, -1, 0x01020304, 0xfffefdfc])) for _ in range(r.below(4))]
             if r.chance(1, 8): ws.append(r.choice([('d', 1.5), NIL, S(b'a'), ('d', float('nan')), ('d', -0.5)]))
             return (f, [b] + ws)
+        if f in ('buffer/push-uint64', 'buffer/push-float32', 'buffer/push-float64'):
+            order = ('k', r.choice([b'le', b'be', b'native', b'le', b'be', b'xx']))
+            if f == 'buffer/push-uint64':
+                x = I(r.choice([0, 1, 255, 256, 2**32, 2**32 + 1, 2**53, 2**53 - 1, -1, 0x0102030405060708 % 2**53, r.below(2**53)]))
+            else:
+                x = r.choice([I(0), I(1), I(-1), I(2), I(255), I(-300), I(2**24), I(2**24 + 1), I(r.range(-100000, 100000)),
+                              ('d', 0.5), ('d', -0.25), ('d', 1.5), ('d', 0.1), ('d', 3.141592653589793), ('d', 1e10), ('d', -1e-3)])
+            if r.chance(1, 12): x = r.choice([NIL, S(b'a'), T([])])
+            return (f, [b, order, x])
         if f in ('buffer/push-uint16', 'buffer/push-uint32'):
             lim = 65536 if f.endswith('16') else 2**32
             x = r.choice([0, 1, 255, 256, 0x0102, 0x01020304 % lim, lim - 1, lim, -1, r.below(lim)])
